@@ -298,11 +298,30 @@ pub fn signature_c15(p: &Program, f: &ProbeFailure) -> String {
     let at = if at == "branch" && needs.is_empty() { format!("branch({})", shapes.last().cloned().unwrap_or_default()) } else { at.to_string() };
     let inferred = if f.never { "never" } else { "narrower" };
     if needs.is_empty() {
-        format!("C15:runtime-type-excluded:witness-needs=[]:at={at}:inferred={inferred}")
+        // the excluded runtime type is causal here (the open finding of this family loses nil / false)
+        let cls = if f.never { "never".to_string() } else { inferred_class(&f.inferred) };
+        format!("C15:runtime-type-excluded:witness-needs=[]:runtime={}:at={at}:inferred={cls}", f.runtime)
     } else {
         // with a special construct present, the position of the probe is not a discriminator
         // (keeps the set of signatures closed: 7 subsets x 2)
         format!("C15:runtime-type-excluded:witness-needs=[{}]:inferred={inferred}", needs.join(","))
+    }
+}
+
+/// Coarse class of an inferred type rendering (closed set).
+fn inferred_class(t: &str) -> String {
+    let t = t.trim();
+    if t.contains('|') || t.starts_with('(') {
+        return "union".into();
+    }
+    match t {
+        "nil" | "boolean" | "integer" | "number" | "string" | "table" | "function" | "any" | "unknown" => t.to_string(),
+        "true" | "false" => "boollit".into(),
+        _ if t.starts_with('"') || t.starts_with('\'') => "strlit".into(),
+        _ if t.chars().next().map(|c| c.is_ascii_digit() || c == '-').unwrap_or(false) => "numlit".into(),
+        _ if t.starts_with("fun") => "function".into(),
+        _ if t.starts_with('{') || t.starts_with("table") => "table".into(),
+        _ => "other".into(),
     }
 }
 
